@@ -57,6 +57,7 @@ class Report:
         self.wall = 0.0
         self.unsupported = []
         self.truncated = False
+        self.cross = {}
 
 
 def _run_task(args):
@@ -92,6 +93,7 @@ def _run_task(args):
         rep.solver_time = sess.solver_time
         rep.unsupported = sess.unsupported
         rep.truncated = sess.truncated
+        rep.cross = sess.cross
     except BaseException as e:  # noqa: BLE001 - harness fault, reported as such
         rep.error = f"{type(e).__name__}: {e}\n{traceback.format_exc()}"
     rep.wall = time.time() - t0
@@ -272,6 +274,11 @@ def finish(prop, tier, reports, t0, level="model_checking", extra_cov=None, must
         "queries": counts,
         "reachability_witnesses": {"total": len(reach), "sat": sum(1 for q in reach if q["verdict"] == "sat")},
         "solver_time_s": round(sum(r.solver_time for r in reports), 2),
+        "second_solver_cross_check": {
+            "solver": "cvc5 (python wheel) on the SMT-LIB text of a deterministic sample of the queries z3 decided; 2 s per query, time-capped per task",
+            **{k: (round(sum(r.cross.get(k, 0) for r in reports), 1)) for k in ("run", "agree", "disagree", "cvc5_unknown", "cvc5_error", "secs")},
+            "disagreements": [d for r in reports for d in r.cross.get("disagreements", [])],
+        },
         "task_wall_s": {r.task: round(r.wall, 1) for r in reports},
         "inconclusive": inconclusive,
         "sat_without_replayable_counterexample": unexplained_sat,
@@ -296,8 +303,10 @@ def finish(prop, tier, reports, t0, level="model_checking", extra_cov=None, must
         "wall_s": round(wall, 2),
         "violations": len(violations),
     }
-    os.makedirs(os.path.join(VERIF, "evidence"), exist_ok=True)
-    with open(os.path.join(VERIF, "evidence", f"{prop}.json"), "w") as f:
+    # runs against a seeded scratch tree (tools/try_seed2.sh) write elsewhere so that evidence/ always describes /repo
+    evdir = os.environ.get("VERIF_EVIDENCE_DIR") or os.path.join(VERIF, "evidence")
+    os.makedirs(evdir, exist_ok=True)
+    with open(os.path.join(evdir, f"{prop}.json"), "w") as f:
         json.dump(ev, f, indent=1, default=str)
     for l in lines:
         print(l)
